@@ -31,6 +31,13 @@ func ReadStatus(filePtr *os.File,
 ) (fileStatus FileStatusEnum, replayStatus ReplayStateEnum, owningInstanceID int64, err error) {
 	var buffer [10]byte
 	buf, _, err := Read(filePtr, buffer[:])
+	if err != nil || len(buf) < len(buffer) {
+		// Read returns a nil buffer at EOF: do not index into it
+		if err == nil {
+			err = ShortReadError("ReadStatus")
+		}
+		return Invalid, Invalid2, 0, err
+	}
 	return FileStatusEnum(buf[0]), ReplayStateEnum(buf[1]), io.ToInt64(buf[2:]), err
 }
 
